@@ -142,9 +142,24 @@ Definition fp_graph : list (string * mask) :=
     ("GRAPH.EDGE*ADD", W [FFloat; FInt; FGraph]); ("GRAPH.EDGE*HISTORY", W [FInt; FFloat]);
     ("GRAPH.EDGE*GETWEIGHT", W [FInt; FFloat]); ("GRAPH.EDGE*SETWEIGHT", W [FFloat; FInt; FGraph]) ].
 
-(* every registered family; a new family is one more `++` (and one more lemma in FrameProofs2.all_framed) *)
-Definition fp_all : list (string * mask) :=
-  fp_core ++ fp_bvec ++ fp_ivec ++ fp_fvec ++ fp_list ++ fp_io ++ fp_graph.
+(* ---- LIST.NEIGHBOR* (list.rs): size, index, dimensions (and the position for *VALS) from INTEGER,
+   the radius from FLOAT; one vector pushed ---- *)
+Definition fp_nbr : list (string * mask) :=
+  [ ("LIST.NEIGHBOR*IDS", W [FInt; FFloat; FIvec]); ("LIST.NEIGHBOR*BVALS", W [FInt; FFloat; FBvec]);
+    ("LIST.NEIGHBOR*IVALS", W [FInt; FFloat; FIvec]); ("LIST.NEIGHBOR*FVALS", W [FInt; FFloat; FFvec]) ].
+
+(* ---- the instructions that read the random number generator (the generator is outside the state) ---- *)
+Definition fp_rand : list (string * mask) :=
+  [ ("BOOLEAN.RAND", W [FBool]); ("INTEGER.RAND", W [FInt]); ("FLOAT.RAND", W [FFloat]);
+    ("CODE.RAND", W [FInt; FCode]); ("NAME.RAND", W [FName]); ("NAME.RANDBOUNDNAME", W [FName]);
+    ("BOOLVECTOR.RAND", W [FInt; FFloat; FBvec]); ("INTVECTOR.RAND", W [FInt; FIvec]);
+    ("FLOATVECTOR.RAND", W [FInt; FFloat; FFvec]) ].
+
+(* every registered family, in the order of Model/RegistryAll.v; a new family is one more `++`
+   (and one more lemma in FrameProofs2.all_framed) *)
+Definition fp_base : list (string * mask) :=
+  fp_core ++ fp_bvec ++ fp_ivec ++ fp_fvec ++ fp_list ++ fp_io ++ fp_graph ++ fp_nbr.
+Definition fp_all : list (string * mask) := fp_base ++ fp_rand.
 
 Fixpoint fp_lookup (t : list (string * mask)) (n : string) : option mask :=
   match t with
@@ -315,8 +330,21 @@ Definition nd_graph : list (string * need) :=
     ("GRAPH.EDGE*ADD", [(FGraph, 1); (FFloat, 1); (FInt, 2)]); ("GRAPH.EDGE*HISTORY", [(FInt, 3); (FGraph, 1)]);
     ("GRAPH.EDGE*GETWEIGHT", [(FGraph, 1); (FInt, 2)]); ("GRAPH.EDGE*SETWEIGHT", [(FGraph, 1); (FFloat, 1); (FInt, 2)]) ].
 
-Definition nd_all : list (string * need) :=
-  nd_core ++ nd_bvec ++ nd_ivec ++ nd_fvec ++ nd_list ++ nd_io ++ nd_graph.
+Definition nd_nbr : list (string * need) :=
+  [ ("LIST.NEIGHBOR*IDS", [(FInt, 3); (FFloat, 1)]); ("LIST.NEIGHBOR*BVALS", [(FInt, 4); (FFloat, 1)]);
+    ("LIST.NEIGHBOR*IVALS", [(FInt, 4); (FFloat, 1)]); ("LIST.NEIGHBOR*FVALS", [(FInt, 4); (FFloat, 1)]) ].
+
+Definition nd_rand : list (string * need) :=
+  [ ("BOOLEAN.RAND", []); ("INTEGER.RAND", []); ("FLOAT.RAND", []); ("CODE.RAND", [(FInt, 1)]); ("NAME.RAND", []);
+    (* EXCEPTION (documented, random.rs: "Selects a random item from the name bindings or a new name if
+       there is not name binding yet"): without any binding a fresh name is pushed; recorded as needing nothing *)
+    ("NAME.RANDBOUNDNAME", []);
+    ("BOOLVECTOR.RAND", [(FInt, 1); (FFloat, 1)]); ("INTVECTOR.RAND", [(FInt, 3)]);
+    ("FLOATVECTOR.RAND", [(FInt, 1); (FFloat, 2)]) ].
+
+Definition nd_base : list (string * need) :=
+  nd_core ++ nd_bvec ++ nd_ivec ++ nd_fvec ++ nd_list ++ nd_io ++ nd_graph ++ nd_nbr.
+Definition nd_all : list (string * need) := nd_base ++ nd_rand.
 
 Fixpoint nd_lookup (t : list (string * need)) (n : string) : option need :=
   match t with
@@ -355,7 +383,9 @@ Section Guards.
       ("CODE.DEFINITION", fun s => match st_name s with
                                    | n :: _ => match bind_get (st_bind s) n with None => true | Some _ => false end
                                    | [] => false end);
-      ("EXEC.CMD", top_int (fun n => negb (-1 <? n)));
+      ("EXEC.CMD", fun s => match st_int s with        (* ... or fewer than n + 1 NAMEs for n arguments *)
+                            | n :: _ => negb (-1 <? n) || negb (n + 1 <=? zlen (st_name s))
+                            | [] => false end);
       (* a node id that is not positive, a negative GRAPH stack position *)
       ("GRAPH.NODE*GETSTATE", top_int (fun id => negb (0 <? id)));
       ("GRAPH.NODE*SETSTATE", second_int (fun id => negb (0 <? id)));
